@@ -9,6 +9,7 @@ ShapesA == { << Op(<<>>, Short) >>,                                            \
              << Op(<<>>, Short), Op(<<>>, Grow), Op(<<1,2>>, Short) >>,         \* join, two roots
              << Op(<<>>, Long),  Op(<<1>>, Big),  Op(<<1>>, Short) >>,          \* fork with an op that always OOMs
              << Op(<<>>, Zero),  Op(<<1>>, Med) >> }                            \* zero-tick first op, then one that OOMs in a small container
+ShapesOne == { << Op(<<>>, Short), Op(<<>>, Grow), Op(<<1,2>>, Short) >> }
 CfgNaive2  == [np |-> 2, cpucap |-> 2, ramcap |-> 3, oc |-> FALSE, multi |-> TRUE, suspNum |-> 1, suspDen |-> 2, U |-> 1,
                minOneTick |-> TRUE, minSuspTick |-> TRUE, checkPool |-> TRUE, reconcileOnSuspend |-> TRUE]
 CfgNaive2S == [CfgNaive2 EXCEPT !.multi = FALSE]
